@@ -248,13 +248,15 @@ func TestBoundedC16(t *testing.T) {
 	}
 	// ---- peer
 	vs, _ := types.RandValidatorSet(4, 1)
-	ours := []*types.VoteSet{types.NewVoteSet("c", 1, 0, types.VoteTypePrevote, vs), types.NewVoteSet("c", 1, 0, types.VoteTypePrecommit, vs),
-		types.NewVoteSet("c", 1, 1, types.VoteTypePrevote, vs), types.NewVoteSet("c", 2, 0, types.VoteTypePrecommit, vs)}
-	ourParts := types.NewPartSetFromData(make([]byte, 200), 64)
 	for round := 0; round < per/4; round++ {
+		// fresh objects every round: a panic inside one of them may leave its lock held
+		ours := []*types.VoteSet{types.NewVoteSet("c", 1, 0, types.VoteTypePrevote, vs), types.NewVoteSet("c", 1, 0, types.VoteTypePrecommit, vs),
+			types.NewVoteSet("c", 1, 1, types.VoteTypePrevote, vs), types.NewVoteSet("c", 2, 0, types.VoteTypePrecommit, vs)}
+		ourParts := types.NewPartSetFromData(make([]byte, 200), 64)
+		broken := false
 		ps := NewPeerState(nil).SetLogger(nop)
 		ps.PRS.Height, ps.PRS.Round = 1, 0
-		for i := 0; i < 12; i++ {
+		for i := 0; i < 12 && !broken; i++ {
 			m := wire(gen(rng.Intn(9)))
 			if m == nil {
 				continue
@@ -297,7 +299,8 @@ func TestBoundedC16(t *testing.T) {
 			func() {
 				defer func() {
 					if x := recover(); x != nil {
-						fail("after %v the gossip step panics (no recover in the goroutine): %v; peer state %+v", m, x, ps.PRS)
+						broken = true // locks may be left held: this peer state and these vote sets are not used again
+						fail("after %v the gossip step panics (no recover in the goroutine): %v", m, x)
 					}
 				}()
 				for _, v := range ours {
